@@ -262,6 +262,9 @@ func ctrInv(s *seqCounters) bool {
 //@   wiring
 //@   keep divzero
 //@   callsite updateAndWriteMPD requires masterValuesSet: ch.masterTimescale != 0 && ch.masterSegDuration != 0
+//@   store ch.maxNrBufSegs = requires keptFilesCoverTheWindow: ch.maxNrBufSegs == ch.timeShiftBufferDepthS*ch.masterTimescale/ch.masterSegDuration + 2
+//@   store windowSize := requires listedWindowOneLessThanKeptFiles: windowSize == ch.maxNrBufSegs - 1
+//@   callsite start requires generatorGetsTheWindow: arg1 == windowSize
 
 //@ func (*channel).updateAndWriteMPD
 //@   wiring
